@@ -460,8 +460,7 @@ def scanCol (S : HStyle) (rows : List Str) (k : Nat) (stop : Char) (up : Bool) :
     | none => none
     | some ch =>
       if ch == stop then some r'
-      else if ch == S.stem || ch == S.subsequentChild || ch == S.middleChild || ch == S.splitBranch
-      then scanCol S rows k stop up fuel r'
+      else if ch == S.stem || ch == S.subsequentChild then scanCol S rows k stop up fuel r'
       else none
 
 /-- decode the node whose branch glyph sits at (row `r`, column `c`) -/
